@@ -2,9 +2,11 @@ package c15
 
 import (
 	"bytes"
+	"errors"
 	"fmt"
 	"io"
 	"log"
+	"net"
 	"net/http"
 	"net/http/httptest"
 	"net/http/httptrace"
@@ -181,7 +183,17 @@ func (p *prop) judgeServer(k *kase, sel string, wb bool, bypass string, o *core.
 	}
 	got, err := s.fetch(k, true)
 	if err != nil {
-		fail("e2e-response-broken", "the reference response is fine, the one through the encode handler fails: %v", err)
+		// once more on a fresh connection: a loaded machine must not look like a broken response
+		s.client.CloseIdleConnections()
+		got, err = s.fetch(k, true)
+	}
+	if err != nil {
+		var ne net.Error
+		if errors.As(err, &ne) && ne.Timeout() {
+			o.Tags = append(o.Tags, "e2e:timeout")
+			return
+		}
+		fail("e2e-response-broken", "the reference response is fine, the one through the encode handler fails twice: %v", err)
 		return
 	}
 	o.Tags = append(o.Tags, "e2e")
